@@ -47,6 +47,8 @@ type Scenario struct {
 	Enabled func(parent *harness.Obs, act *Action) bool
 	// WholePath records every wait from the end of the seed preamble (path-level oracles).
 	WholePath bool
+	// OnState (optional) is called for every new state with the path reaching it.
+	OnState func(path []Action)
 }
 
 type bfsState struct {
@@ -115,6 +117,9 @@ func (c *Ctx) BFS(sc *Scenario) {
 			seen[h] = true
 			c.States++
 			frontier = append(frontier, bfsState{seed: s, hash: h, obs: call.Waits[len(call.Waits)-1].Obs})
+			if sc.OnState != nil {
+				sc.OnState(nil)
+			}
 		}
 	})
 	sort.Slice(frontier, func(i, j int) bool { return frontier[i].seed.Name < frontier[j].seed.Name })
@@ -204,6 +209,9 @@ func (c *Ctx) BFS(sc *Scenario) {
 				c.States++
 				np := append(append([]Action{}, m.st.path...), *m.act)
 				next = append(next, bfsState{seed: m.st.seed, path: np, hash: h, obs: call.Waits[len(call.Waits)-1].Obs})
+				if sc.OnState != nil {
+					sc.OnState(np)
+				}
 			}
 		})
 		// deterministic order of the next frontier (shortest-first is inherent)
